@@ -336,11 +336,15 @@ def _shapes_c04_4(tier):
         add("hrr", "c", 352, 704, 2, 32)
     else:
         add("hrr", "s", 0, 400, 8)
-        add("hrr", "c", 0, 800, 2)
+        # the first ClientHello of the retry flow has the layout of the PSK
+        # ClientHello swept below: only the second one is swept here
+        add("hrr", "c", 352, 800, 2)
         add("psk_dhe", "s", 0, 288, 8)
         add("psk_dhe", "c", 0, 352, 2)
         add("cert", "s", 0, 1280, 16)
-        add("cert", "c", 0, 320, 2)
+        # client stream of the certificate handshake: ClientHello without the
+        # PSK extensions (a sub-layout of the PSK one) + Finished
+        add("cert", "c", 224, 320, 2)
     return out
 
 
